@@ -4,6 +4,7 @@ from vf import sched
 
 sched.install()  # before eliot is imported (part 'threads' runs under the line-granular scheduler)
 
+import ast
 import itertools
 import random
 
@@ -32,7 +33,7 @@ RULE = ("1-4 destinations (one always-healthy reference at a random position, th
         "with a message of its own, a FileDestination whose json_default logs a diagnostic, optionally a failing one in between) run as a one-thread "
         "schedule: no self-deadlock, every destination offered every outer and nested message exactly once, reports == failed deliveries. part 'interrupted_report': 2-3 destinations fail on one message and the delivery of the first report "
         "is cut short by a non-Exception from another destination: the healthy destination (registered first) is still offered one report per failure. A quarter of the random programs run inside an action bound to a logger object of its "
-        "own, half of the hand-overs happen inside an open action (a third of those inside an action bound to a MemoryLogger: recorded finding). Destination exceptions include ones whose text is the empty string (raised without arguments). part 'deferred': a destination schedules follow-up work for what it is offered, reports included (loop.call_soon, a new asyncio task, a saved copy_context()), which later logs a message of its own; a failure on that message is reported like any other. non-trivial = >=2 faulty destinations or a mask that hits a report; distinct by (program shape, masks)")
+        "own, half of the hand-overs happen inside an open action (a third of those inside an action bound to a MemoryLogger: recorded finding). Destination exceptions include ones whose text is the empty string (raised without arguments). part 'deferred': a destination schedules follow-up work for what it is offered, reports included (loop.call_soon, a new asyncio task, a saved copy_context()), which later logs a message of its own; a failure on that message is reported like any other. The rendering clause of the accounting oracle also demands, for every field of the affected message (as the failing destination was offered it) whose value is an int/str/float/bool/None or a list/tuple/dict of those, that the report's message text - read as the dict display of repr texts it is - shows the field's name together with repr(value); values of other classes are not judged. part 'tuples': messages, action start fields, success fields and action.log messages whose fields are or hold tuples ((), one-element tuples, pairs, nested tuples, lists of tuples, dicts with tuple keys/values) go to 1-2 raising recording destinations and the reference, same accounting. part 'mainmodule': fresh interpreters started as `python -m prog`, `python -m pkg` (pkg/__main__.py), `python -m pkg.tool`, `python prog.py` and `python -c` (tree under test first on PYTHONPATH) run a program whose failing destination raises an exception class defined in that main module: the report's exception field equals the type(e).__module__ + '.' + type(e).__name__ the program computed itself (reason, one report per failure and position behind the affected message are judged too). non-trivial = >=2 faulty destinations or a mask that hits a report; distinct by (program shape, masks)")
 ASSUMPTIONS = ["destinations raise Exception subclasses (part 'interrupted_report' alone lets one raise a non-Exception, and only while it is offered a failure report)", "under concurrency only per-destination sets, per-thread order and report counts are judged "
                "(destinations may legitimately see different total orders)"]
 EXHAUSTIVE_NOTE = "part 'enum' enumerates every failure mask over the first K calls of D destinations"
@@ -62,6 +63,10 @@ def plan(tier, seed):
         specs.append({"part": "deferred", "seed": seed, "i": j})
     for j in range(12 if tier == "quick" else 120):
         specs.append({"part": "globaltype", "seed": seed, "i": j})
+    for j in range(300 if tier == "quick" else 3000):
+        specs.append({"part": "tuples", "seed": seed, "i": j})
+    for j in range(10 if tier == "quick" else 100):
+        specs.append({"part": "mainmodule", "seed": seed, "i": j})
     return specs
 
 
@@ -72,8 +77,85 @@ def key(m):
 def is_report(m):
     return m.get("message_type") == "eliot:destination_failure"
 
+_PLAIN_SCALARS = (int, str, float, bool, type(None))
+_MISSING = object()
 
-def account(tape, names, ref, problems):
+
+def plain(v, depth=0):
+    """True for an int/str/float/bool/None (exactly these classes, no subclasses) or a list/tuple/dict built from such values only:
+    the values whose repr() is fixed by the language."""
+    t = type(v)
+    if t in _PLAIN_SCALARS:
+        return True
+    if depth > 40:
+        return False
+    if t is list or t is tuple:
+        return all(plain(x, depth + 1) for x in v)
+    if t is dict:
+        return all(plain(k, depth + 1) and plain(x, depth + 1) for k, x in v.items())
+    return False
+
+
+def holds_tuple(v):
+    t = type(v)
+    if t is tuple:
+        return True
+    if t is list:
+        return any(holds_tuple(x) for x in v)
+    if t is dict:
+        return any(holds_tuple(k) or holds_tuple(x) for k, x in v.items())
+    return False
+
+
+def rendering_gaps(rendering, m, stats=None):
+    """'A rendering of the affected message': for every field of the message the destination was offered whose value is plain
+    (see plain()), the report's `message` text has to show the field's name together with repr(value). The text is read the way it
+    presents itself - a Python dict display whose keys and values are the repr() texts of the message's keys and values (a
+    display of the values themselves is accepted as well); a text that is no dict display is searched for name and repr(value).
+    Fields whose value is of any other class (their repr may raise and is then replaced by a placeholder) are not judged."""
+    out = []
+    try:
+        parsed = ast.literal_eval(rendering)
+    except BaseException:
+        parsed = None
+    for name, value in m.items():
+        if type(name) is not str or not plain(value):
+            continue
+        try:
+            want = repr(value)
+        except BaseException:
+            continue
+        if isinstance(parsed, dict):
+            shown = parsed.get(repr(name), _MISSING)
+            if shown is _MISSING:
+                shown = parsed.get(name, _MISSING)
+            if shown is _MISSING:
+                ok = False
+            elif type(shown) is str:
+                ok = shown == want or (type(value) is str and shown == value)  # (the latter: a display of the values themselves)
+            else:
+                ok = plain(shown) and repr(shown) == want
+        else:
+            shown = _MISSING
+            ok = name in rendering and (want in rendering or repr(want)[1:-1] in rendering)
+        if stats is not None:
+            stats["fields"] = stats.get("fields", 0) + 1
+            if holds_tuple(value):
+                stats["tuple_fields"] = stats.get("tuple_fields", 0) + 1
+                if value == ():
+                    stats["empty_tuples"] = stats.get("empty_tuples", 0) + 1
+                if type(value) is tuple and len(value) == 1:
+                    stats["one_tuples"] = stats.get("one_tuples", 0) + 1
+                if type(value) is dict and any(type(k) is tuple for k in value):
+                    stats["tuple_keys"] = stats.get("tuple_keys", 0) + 1
+        if not ok:
+            out.append("report's message rendering does not show field %r of the affected message with its value: the destination was offered %s=%s, "
+                       "the rendering %s" % (name, name, want[:200], ("shows %r for it" % (shown,))[:260] if shown is not _MISSING else
+                                             ("has no entry for it" if isinstance(parsed, dict) else "is %r" % (rendering[:300],))))
+    return out
+
+
+def account(tape, names, ref, problems, stats=None):
     """The oracle. names: destination names in registration order."""
     per = {n: [e for e in tape.entries if e["k"] == "msg" and e["dest"] == n] for n in names}
     refseq = [key(e["m"]) for e in per[ref]]
@@ -125,6 +207,8 @@ def account(tape, names, ref, problems):
                 problems.append("report's message rendering %r does not show the affected message %s%s" % (rendering, m["task_uuid"][:8], m["task_level"]))
             if "nid" in m and ("'nid'" not in rendering or repr(str(m["nid"])) not in rendering and repr(m["nid"]) not in rendering):
                 problems.append("report's message rendering does not show the affected message's nid field")
+            if isinstance(rendering, str):
+                problems.extend(rendering_gaps(rendering, m, stats)[:3])
             # failures while delivering the report are not reported
             for n2 in names:
                 if j < len(per[n2]) and per[n2][j].get("failed"):
@@ -139,6 +223,15 @@ def account(tape, names, ref, problems):
     if n_reports != failures_total:
         problems.append("%d eliot:destination_failure messages for %d failed deliveries of non-report messages" % (n_reports, failures_total))
     return failures_total, hits_report
+
+
+def fold_rendering_stats(res, stats):
+    c = res["counters"]
+    for k, name in (("fields", "report_rendering_fields_judged"), ("tuple_fields", "report_rendering_fields_holding_tuples_judged"),
+                    ("empty_tuples", "report_rendering_empty_tuples_judged"), ("one_tuples", "report_rendering_one_element_tuples_judged"),
+                    ("tuple_keys", "report_rendering_dicts_with_tuple_keys_judged")):
+        if stats.get(k):
+            c[name] = c.get(name, 0) + stats[k]
 
 
 tape_dest = {}
@@ -177,7 +270,9 @@ def run_with(dests_spec, body, res, label, shape):
                 remove_destination(d)
             except ValueError:
                 problems.append("destination %s is no longer registered at the end although the program never removed it" % getattr(d, "name", d))
-    failures, hits_report = account(tape, names, "ref", problems)
+    stats = {}
+    failures, hits_report = account(tape, names, "ref", problems, stats)
+    fold_rendering_stats(res, stats)
     c = res["counters"]
     c["offers_checked"] = c.get("offers_checked", 0) + sum(1 for e in tape.entries if e["k"] == "msg")
     c["failed_deliveries"] = c.get("failed_deliveries", 0) + failures
@@ -278,7 +373,9 @@ def part_prebuffered(spec, res):
     if not st["aborted"] and (not t1 or t1 != t0[len(t0) - len(t1):]):
         problems.append("of two equal-but-distinct destinations registered one after the other, the second received %d messages, the first %d" % (len(t1), len(t0)))
     problems.extend(v["msg"] for v in it.violations if v["msg"].startswith("eliot API call"))
-    failures, hits_report = account(tape, names, "ref", problems)
+    stats = {}
+    failures, hits_report = account(tape, names, "ref", problems, stats)
+    fold_rendering_stats(res, stats)
     c = res["counters"]
     c["prebuffered_runs"] = c.get("prebuffered_runs", 0) + 1
     c["failed_deliveries"] = c.get("failed_deliveries", 0) + failures
@@ -496,6 +593,249 @@ def part_globaltype(spec, res):
     res["nontrivial"].append(h(["gt", name, nmsg, spec["i"] % 2]))
     if problems:
         res["violations"].append({"msg": problems[0], "mech": None, "detail": {"label": "globaltype", "global_field": name, "problems": problems[:4]}})
+
+
+TUPLE_ATOMS = [1, 2, 0, -1, 7, 2 ** 63, 1.5, -0.0, 1e22, "one", "", "it's", 'q"', "back\\slash", "é", "line\nbreak", None, True, False]
+TUPLE_FIELD_NAMES = ["coords", "only", "none", "pair", "shape", "path", "key", "span", "args", "f0", "f1", "alpha"]
+
+
+def gen_tuple_value(rng, depth=2):
+    """A field value that is, or holds, a tuple: the empty tuple, one-element tuples, pairs, longer and nested ones, lists of
+    tuples, dicts with tuple keys and/or tuple values."""
+    atom = lambda: rng.choice(TUPLE_ATOMS)
+    r = rng.random()
+    if r < 0.18:
+        return ()
+    if r < 0.40:
+        return (atom(),)
+    if r < 0.62:
+        return (atom(), atom())
+    if r < 0.70 or depth <= 0:
+        return tuple(atom() for _ in range(rng.randint(3, 5)))
+    if r < 0.80:
+        return tuple(rng.choice([gen_tuple_value(rng, depth - 1), atom()]) for _ in range(rng.randint(1, 3)))
+    if r < 0.88:
+        return [gen_tuple_value(rng, depth - 1) for _ in range(rng.randint(1, 3))]
+    d = {}
+    for _ in range(rng.randint(1, 3)):
+        k = rng.choice([(), (atom(),), (atom(), atom()), ((atom(),), atom()), "k%d" % rng.randint(0, 9), rng.randint(0, 9)])
+        d[k] = rng.choice([atom(), gen_tuple_value(rng, depth - 1)])
+    return d
+
+
+def part_tuples(spec, res):
+    """Messages and actions whose fields are tuples - (), one-element tuples, pairs, nested ones, tuples inside lists, tuple keys
+    and values inside dicts - go to destinations that take any value (the recording ones); one or two of them raise. Judged by the
+    accounting oracle, whose rendering clause demands every plain field of the affected message, name with repr(value)."""
+    rng = random.Random("%s:C08:tup:%d" % (spec["seed"], spec["i"]))
+    ops = []
+    nid = [0]
+
+    def fields():
+        names = rng.sample(TUPLE_FIELD_NAMES, rng.randint(1, 3))
+        out = {}
+        for nm in names:
+            out[nm] = gen_tuple_value(rng) if rng.random() < 0.85 else rng.choice(TUPLE_ATOMS)
+        return out
+    for _ in range(rng.randint(1, 5)):
+        nid[0] += 1
+        style = rng.choice(["log_message", "log_message", "action", "action.log"])
+        if style == "log_message":
+            ops.append(("log_message", nid[0], fields()))
+        elif style == "action":
+            nid[0] += 1
+            ops.append(("action", nid[0] - 1, fields(), fields()))
+        else:
+            nid[0] += 1
+            ops.append(("action.log", nid[0] - 1, fields(), nid[0]))
+    dspec = [("ref",)]
+    for j in range(rng.choice([1, 1, 2])):
+        if rng.random() < 0.5:
+            desc, pred = "all", (lambda i: True)
+        else:
+            desc, pred = faults.gen_mask(rng, 8)
+        ename, fac = faults.exc_factory(rng)
+        dspec.insert(rng.randint(0, len(dspec)), ("bad", pred, fac, desc + ":" + ename))
+
+    def body(tape, problems):
+        for op in ops:
+            if op[0] == "log_message":
+                log_message(message_type="tup:m", nid=op[1], **op[2])
+            elif op[0] == "action":
+                with start_action(action_type="tup:act", nid=op[1], **op[2]) as a:
+                    a.add_success_fields(**op[3])
+            else:
+                with start_action(action_type="tup:act", nid=op[1]) as a:
+                    a.log(message_type="tup:inner", nid=op[3], **op[2])
+    run_with(dspec, body, res, "tuples", repr(ops)[:1500])
+    res["counters"]["tuple_field_runs"] = res["counters"].get("tuple_field_runs", 0) + 1
+    if res["sample"] is None and spec["i"] < 3:
+        res["sample"] = {"part": "tuples", "ops": repr(ops)[:600], "masks": [d[3] for d in dspec if d[0] == "bad"]}
+
+
+MAIN_PROGRAM = r"""
+import json
+import sys
+import eliot
+from eliot import add_destinations, log_message, start_action
+
+
+class @CLS@(@BASE@):
+    pass
+
+
+seen = []
+raised = []
+errors = []
+
+
+def record(message):
+    seen.append(dict(message))
+
+
+def flaky(message):
+    if message.get("message_type") != "eliot:destination_failure" and message.get("n") in @FAIL@:
+        e = @CLS@(@TEXT@)
+        raised.append([message.get("n"), type(e).__module__ + "." + type(e).__name__, str(e)])
+        raise e
+
+
+add_destinations(@ORDER@)
+try:
+    with start_action(action_type="mm:act", n=0):
+        for n in range(1, @N@ + 1):
+            log_message(message_type="mm:m", n=n)
+except BaseException as exc:
+    errors.append(repr(exc))
+spec = getattr(sys.modules["__main__"], "__spec__", None)
+print(json.dumps({
+    "eliot": eliot.__file__,
+    "main_spec": None if spec is None else spec.name,
+    "class": @CLS@.__module__ + "." + @CLS@.__name__,
+    "raised": raised,
+    "errors": errors,
+    "seen": [[m.get("message_type") or "%s/%s" % (m.get("action_type"), m.get("action_status")), m.get("n"), m.get("exception"),
+              m.get("reason"), m.get("message")] for m in seen],
+}))
+"""
+MAIN_LAUNCHES = ["-m module", "-m package", "script", "-m package.module", "-c"]
+
+
+def part_mainmodule(spec, res):
+    """The class named in the report when the exception class lives in the program's main module, for every way of starting the
+    program: `python -m prog`, `python -m pkg` (pkg/__main__.py), `python -m pkg.tool`, `python prog.py`, `python -c`. A fresh
+    interpreter (the tree under test first on PYTHONPATH) runs a small program whose failing destination raises a locally defined
+    exception; the program reports what its healthy destination saw and what type(e).__module__ + "." + type(e).__name__ was."""
+    import json as _json
+    import os
+    import shutil
+    import subprocess
+    import tempfile
+    from vf import runner
+    rng = random.Random("%s:C08:mm:%d" % (spec["seed"], spec["i"]))
+    launch = MAIN_LAUNCHES[spec["i"] % len(MAIN_LAUNCHES)]
+    cls = rng.choice(["StorageDown", "QueueFull", "Unreachable", "boom"])
+    base = rng.choice(["Exception", "Exception", "RuntimeError", "OSError", "LookupError"])
+    nmsg = rng.randint(1, 4)
+    fail = sorted(rng.sample(range(0, nmsg + 1), rng.randint(1, nmsg)))
+    if 0 in fail and rng.random() < 0.5:
+        fail.remove(0)
+    if not fail:
+        fail = [1]
+    text = rng.choice(["disk unplugged", "", "queue is full: 17 waiting", "é \U0001f600"])
+    order = rng.choice(["record, flaky", "flaky, record"])
+    src = (MAIN_PROGRAM.replace("@CLS@", cls).replace("@BASE@", base).replace("@FAIL@", repr(tuple(fail)))
+           .replace("@TEXT@", ascii(text)).replace("@ORDER@", order).replace("@N@", str(nmsg)))
+    c = res["counters"]
+    res["evals"] += 1
+    tmp = tempfile.mkdtemp(prefix="vf-c08-main-")
+    try:
+        def put(rel, content):
+            path = os.path.join(tmp, rel)
+            os.makedirs(os.path.dirname(path), exist_ok=True)
+            with open(path, "w", encoding="utf-8") as f:
+                f.write(content)
+        if launch == "-m module":
+            put("prog.py", src)
+            argv = ["-m", "prog"]
+        elif launch == "script":
+            put("prog.py", src)
+            argv = ["prog.py"]
+        elif launch == "-m package":
+            put("pkg/__init__.py", "")
+            put("pkg/__main__.py", src)
+            argv = ["-m", "pkg"]
+        elif launch == "-m package.module":
+            put("pkg/__init__.py", "")
+            put("pkg/tool.py", src)
+            argv = ["-m", "pkg.tool"]
+        else:
+            argv = ["-c", src]
+        env = dict(os.environ)
+        env["PYTHONPATH"] = os.pathsep.join([runner.REPO] + ([env["PYTHONPATH"]] if env.get("PYTHONPATH") else []))
+        env["PYTHONIOENCODING"] = "utf-8"
+        try:
+            out = subprocess.run(["/venv/bin/python"] + argv, cwd=tmp, env=env, stdin=subprocess.DEVNULL, capture_output=True, timeout=60)
+        except subprocess.TimeoutExpired:
+            res["inconclusive"] = "main-module program (%s) did not finish within 60 s" % launch
+            return
+    finally:
+        shutil.rmtree(tmp, ignore_errors=True)
+    try:
+        if out.returncode != 0:
+            raise ValueError("exit status %d" % out.returncode)
+        rep = _json.loads(out.stdout.decode("utf-8").strip().splitlines()[-1])
+    except Exception as e:
+        res["inconclusive"] = "main-module program (%s) gave no result (%s): %s" % (launch, e, out.stderr.decode("utf-8", "replace")[-300:])
+        return
+    if not os.path.realpath(rep["eliot"]).startswith(os.path.realpath(runner.REPO) + os.sep):
+        res["inconclusive"] = "main-module program imported eliot from %s, not from %s" % (rep["eliot"], runner.REPO)
+        return
+    problems = ["logging raised %s" % e for e in rep["errors"]]
+    raised = {r[0]: r for r in rep["raised"]}
+    seen = rep["seen"]
+    k = 0
+    judged = 0
+    expected_plain = [["mm:act/started", 0]] + [["mm:m", n] for n in range(1, nmsg + 1)] + [["mm:act/succeeded", None]]
+    plain_seen = [m[:2] for m in seen if m[0] != "eliot:destination_failure"]
+    if plain_seen != expected_plain:
+        problems.append("the healthy destination of the program started with `python %s` saw %r, the program logged %r" % (launch if launch != "script" else "prog.py", plain_seen, expected_plain))
+    while k < len(seen):
+        m = seen[k]
+        k += 1
+        if m[0] == "eliot:destination_failure":
+            problems.append("a report that is not preceded by a failed delivery")
+            continue
+        if m[1] in raised and m[0] != "mm:act/succeeded":
+            n, name, reason = raised[m[1]]
+            if k >= len(seen) or seen[k][0] != "eliot:destination_failure":
+                problems.append("the failure of the destination on message n=%s was not reported" % n)
+                continue
+            r = seen[k]
+            k += 1
+            judged += 1
+            if r[2] != name:
+                problems.append("program started with `python %s`%s: a destination raised an exception of the class %s defined in the main module, "
+                                "type(e).__module__ + '.' + type(e).__name__ is %r, the eliot:destination_failure report names exception %r" % (
+                                    {"script": "prog.py", "-m module": "-m prog", "-m package": "-m pkg", "-m package.module": "-m pkg.tool", "-c": "-c ..."}[launch],
+                                    "" if rep["main_spec"] is None else " (sys.modules['__main__'].__spec__.name == %r)" % rep["main_spec"], cls, name, r[2]))
+            if r[3] != reason:
+                problems.append("report reason %r, exception text %r" % (r[3], reason))
+            if not isinstance(r[4], str) or repr(n) not in r[4]:
+                problems.append("report's message rendering %r does not show the affected message (n=%r)" % (r[4], n))
+    if len(raised) != len(rep["raised"]) or judged != len(raised):
+        problems.append("%d failed deliveries of non-report messages, %d reports reached the healthy destination behind the message they are about" % (len(rep["raised"]), judged))
+    d = c.setdefault("main_module_runs_by_launch", {})
+    d[launch] = d.get(launch, 0) + 1
+    c["main_module_reports_judged"] = c.get("main_module_reports_judged", 0) + judged
+    if rep["main_spec"] is not None:
+        c["main_module_reports_judged_with_a_main_spec"] = c.get("main_module_reports_judged_with_a_main_spec", 0) + judged
+    res["nontrivial"].append(h(["mm", launch, cls, base, fail, text, order]))
+    if res["sample"] is None:
+        res["sample"] = {"part": "mainmodule", "launch": launch, "main_spec": rep["main_spec"], "class": rep["class"], "seen": [m[:4] for m in seen][:8]}
+    if problems:
+        res["violations"].append({"msg": problems[0], "mech": None, "detail": {"label": "mainmodule", "launch": launch, "main_spec": rep["main_spec"],
+                                                                               "problems": problems[:6], "program": src}})
 
 
 class Payload(object):
@@ -738,6 +1078,12 @@ def run_case(spec):
     if spec["part"] == "globaltype":
         part_globaltype(spec, res)
         return res
+    if spec["part"] == "tuples":
+        part_tuples(spec, res)
+        return res
+    if spec["part"] == "mainmodule":
+        part_mainmodule(spec, res)
+        return res
     if spec["part"] == "random":
         for i in range(spec["lo"], spec["hi"]):
             rng = random.Random("%s:C08:%d" % (spec["seed"], i))
@@ -815,4 +1161,16 @@ def finalize(agg, tier):
         return "too few prebuffered runs / thread schedules"
     if c.get("failures_on_messages_logged_by_deferred_work", 0) < 20 or c.get("deferred_work_scheduled_while_a_report_was_delivered", 0) < 20:
         return "part 'deferred' rarely reached a failure on a message logged by work scheduled while a report was being delivered"
+    if c.get("report_rendering_fields_judged", 0) < 1000:
+        return "the rendering clause (field name with repr(value) in the report's message text) judged too few fields"
+    for k in ("report_rendering_fields_holding_tuples_judged", "report_rendering_empty_tuples_judged", "report_rendering_one_element_tuples_judged",
+              "report_rendering_dicts_with_tuple_keys_judged"):
+        if c.get(k, 0) < 50:
+            return "part 'tuples' rarely reached a failure report about a message with tuple-valued fields (%s = %d)" % (k, c.get(k, 0))
+    by = c.get("main_module_runs_by_launch", {})
+    for launch in ("-m module", "-m package", "script"):
+        if by.get(launch, 0) < 1:
+            return "part 'mainmodule' never completed a program started with `python %s`" % {"-m module": "-m prog", "-m package": "-m pkg", "script": "prog.py"}[launch]
+    if c.get("main_module_reports_judged_with_a_main_spec", 0) < 2:
+        return "part 'mainmodule' judged no failure report in an interpreter whose main module has a __spec__ (python -m ...)"
     return None
